@@ -749,4 +749,117 @@ U_SPLIT = Unit(P + '/compute_far_field-media-end-to-end', ['Mininec.compute_far_
                                 [P + '/compute_far_field[media end to end]/a-further']),
                          ])
 
-UNITS = [U_READS, U_GROUND, U_REFL, U_LOOKUP, U_LOOKUP_LEMMA, U_FRESNEL, U_LIMIT, U_SPLIT]
+
+
+# ---------------------------------------------------------------- the media tables of compute_far_field
+def t_media_tables(eng):
+    """the statement `if self.media: ...` at the top of compute_far_field, for three media with arbitrary constants:
+    the three tables list, medium by medium and in order, the boundary coordinate, the height and the surface impedance
+    at this frequency OF THAT MEDIUM (nothing accumulated, nothing shifted), and the radial screen is the first medium's.
+    The slices above take these tables as given; this unit is what ties them to the media."""
+    n = P + '/compute_far_field[media tables]/'
+    Q = 'Mininec.compute_far_field'
+    f = eng.get_fnode(Q)
+    st = [x for x in f.body if isinstance(x, ast.If) and ast.unparse(x.test).replace(' ', '') == 'self.media']
+    if len(st) != 1:
+        from pyvc.source import Unresolved
+        raise Unresolved('if self.media: in compute_far_field')
+    m = SObj('Mininec', label='m')
+    fq = fresh_real('f')
+    m.fields['f'] = fq
+    m.fields['_f'] = fq
+    meds = []
+    for k in range(3):
+        md = SObj('Medium', label='medium%d' % k)
+        md.fields.update({'coord': fresh_real('coord%d' % k), 'height': fresh_real('height%d' % k),
+                          'nradials': fresh_int('nradials%d' % k), 'radius': fresh_real('radius%d' % k)})
+        meds.append(md)
+    m.fields['media'] = SList([('conc', meds)])
+    imp = {}
+
+    def sum_imp(e_, a, k_):
+        z = CX(fresh_real('Zre'), fresh_real('Zim'))
+        imp[id(a[0])] = (z, a[1] if len(a) > 1 else k_.get('f'))
+        return z
+    eng.summaries['Medium.impedance'] = sum_imp
+    env = {'self': m}
+    eng.frames.append({'fref': eng.fref(Q), 'env': env, 'qual': Q, 'node': f})
+    try:
+        eng.exec_stmt(st[0], env)
+    finally:
+        eng.frames.pop()
+    eng.cover('media-tables')
+    for nm, fld in (('media_coord', 'coord'), ('media_height', 'height')):
+        t = env.get(nm)
+        ok = isinstance(t, NDArr) and t.shape == (3,)
+        eng.oblige(n + nm + '-lists-every-medium-own-value-in-order',
+                   ok and bterm(b_and(*[num_eq(t.data[k], meds[k].fields[fld]) for k in range(3)])))
+    t = env.get('media_impedance')
+    ok = isinstance(t, NDArr) and t.shape == (3,) and all(id(md) in imp for md in meds)
+    eng.oblige(n + 'media_impedance-is-the-surface-impedance-of-each-medium-at-this-frequency',
+               ok and bterm(b_and(*[b_and(c_eq(to_cx(t.data[k]), imp[id(meds[k])][0]), num_eq(imp[id(meds[k])][1], fq)) for k in range(3)])))
+    eng.oblige(n + 'radial-screen-is-that-of-the-first-medium',
+               'nr' in env and 'rr' in env and bterm(b_and(num_eq(env['nr'], meds[0].fields['nradials']), num_eq(env['rr'], meds[0].fields['radius']))))
+
+
+class _HeightsAccumulated(ast.NodeTransformer):
+    def visit_Assign(self, node):
+        if ast.unparse(node.targets[0]) == 'media_height':
+            node.value = ast.parse('np.cumsum ([m.height for m in self.media])').body[0].value
+        return node
+
+
+U_TABLES = Unit(P + '/compute_far_field-media-tables', ['Mininec.compute_far_field'], t_media_tables, SCHEMA,
+                slices={'Mininec.compute_far_field': 'the statement `if self.media: ...`'},
+                notes='three media (the statement is a list comprehension per table: any number behaves alike)',
+                canaries=[Canary('media-heights-accumulated', 'Mininec.compute_far_field', _HeightsAccumulated,
+                                 [P + '/compute_far_field[media tables]/media_height'])])
+
+
+
+# ---------------------------------------------------------------- Medium.impedance: tends to 0 as the conductivity grows
+def t_medium_impedance(eng):
+    """Medium.impedance (f): 0 for ideal ground; otherwise Z with Z^2 * (eps_r - j sigma / t) = 1, t = 2 pi f 8.85e-6, and
+    hence |Z|^4 * (eps_r^2 + (sigma/t)^2) = 1: in particular |Z|^4 <= (t / sigma)^2 -- the surface impedance tends to 0 as
+    the conductivity grows (the quantitative half of the convergence clause; the other half is the perfect-conductor
+    limit unit)."""
+    n = P + '/Medium.impedance/'
+    md = SObj('Medium', label='medium')
+    ideal = eng.choose(2) == 1
+    eps, sig = fresh_real('eps_r'), fresh_real('sigma')
+    fq = fresh_real('f')
+    eng.assume(b_and(r_cmp('>=', eps, 1), r_cmp('>', sig, 0), r_cmp('>', fq, 0)))
+    md.fields.update({'is_ideal': ideal, 'permittivity': eps, 'conductivity': sig})
+    try:
+        z = eng.call_qual('Medium.impedance', [md, fq])
+    except PyRaise as ex:
+        eng.oblige(n + 'no-exception-for-physical-constants', False, detail=ex.cls)
+        return
+    eng.cover('medium-impedance-%d' % ideal)
+    z = to_cx(z)
+    if ideal:
+        eng.oblige(n + 'ideal-ground-has-impedance-0', c_eq(z, CX(0, 0)))
+        return
+    import pyvc.builtins as _B
+    t = r_mul(r_mul(r_mul(2, _B.PI), fq), Fraction('8.85e-6'))
+    x = CX(eps, r_neg(r_div(sig, t)))
+    step = c_eq(c_mul(c_mul(z, z), x), CX(1, 0))
+    if eng.oblige(n + 'Z^2*(eps_r-j*sigma/t)=1', step):
+        eng.assume(step)
+    a2 = c_abs2(z)
+    eng.oblige(n + '|Z|^4*(eps_r^2+(sigma/t)^2)=1', num_eq(r_mul(r_mul(a2, a2), c_abs2(x)), 1))
+    eng.oblige(n + '|Z|^4<=(t/sigma)^2:-tends-to-0-as-the-conductivity-grows',
+               r_cmp('<=', r_mul(r_mul(a2, a2), r_mul(sig, sig)), r_mul(t, t)))
+
+
+class _ImpedanceNoRoot(ast.NodeTransformer):
+    def visit_Return(self, node):
+        if node.value is not None and 'np.sqrt' in ast.unparse(node.value):
+            node.value = ast.parse(ast.unparse(node.value).replace('np.sqrt', '')).body[0].value
+        return node
+
+
+U_MEDZ = Unit(P + '/Medium.impedance', ['Medium.impedance'], t_medium_impedance, SCHEMA,
+              canaries=[Canary('impedance-without-the-square-root', 'Medium.impedance', _ImpedanceNoRoot, [P + '/Medium.impedance/'])])
+
+UNITS = [U_READS, U_GROUND, U_REFL, U_LOOKUP, U_LOOKUP_LEMMA, U_FRESNEL, U_LIMIT, U_SPLIT, U_TABLES, U_MEDZ]
